@@ -28,7 +28,8 @@
 (* MUTATIONS (TLC enumerates all of them, for both base configurations     *)
 (* `full` = every key given a non-default value, `min` = required only):   *)
 (*   none | unknown(point) | wrongtype(leaf) | range(leaf, bad value) |    *)
-(*   ph(leaf, env|property, set|unset) | emb(str leaf) | absent(leaf) |    *)
+(*   ph(leaf, env|property, set|unset) | emb(str leaf) | phnokey(str leaf, *)
+(*   ${property:file} without #key) | absent(leaf) |                       *)
 (*   dropcomp(required component of a pool).                               *)
 (*                                                                         *)
 (* MODEL.  Decode is implementation shaped: placeholder substitution       *)
@@ -290,6 +291,7 @@ CasesOf(V) ==
                                           /\ (x[1] = "full" \/ ~\E q \in V.mwmin : IsPrefix(q, V.leaves[x[2]].p))}}
     \cup {MkCase(V, "full", "emb", V.leaves[j].p, j, "env", TRUE) : j \in {i \in 1..n : /\ V.leaves[i].k = "str" /\ V.leaves[i].fl = "opt"
                                                                                             /\ ~\E b \in 1..Len(V.bads) : V.bads[b].p = V.leaves[i].p}}
+    \cup {MkCase(V, "full", "phnokey", V.leaves[j].p, j, "property", TRUE) : j \in {i \in 1..n : V.leaves[i].k = "str"}}
     \cup {MkCase(V, "full", "absent", V.leaves[j].p, j, "", TRUE) : j \in {i \in 1..n : V.leaves[i].fl # "fix"}}
     \cup {MkCase(V, b, "dropcomp", <<"pools", pi, comp>>, 0, "", TRUE) : <<b, pi, comp>> \in Bases \X {"#1", "#2"} \X PoolComponents}
 
@@ -305,6 +307,7 @@ Delta(c) ==
          [] c.kind = "range"     -> [set |-> <<[p |-> c.p, t |-> RT(V.bads[c.i].k), v |-> V.bads[c.i].r]>>, del |-> <<>>]
          [] c.kind = "ph"        -> [set |-> <<[p |-> c.p, t |-> "str", v |-> IF c.src = "env" THEN "${env:VERIF_PH}" ELSE "${property:@PROPS@#VERIF_PH}"]>>,
                                      del |-> <<>>]
+         [] c.kind = "phnokey"   -> [set |-> <<[p |-> c.p, t |-> "str", v |-> "${property:@PROPS@}"]>>, del |-> <<>>]   \* no '#key'
          [] c.kind = "emb"       -> [set |-> <<[p |-> c.p, t |-> "str", v |-> "pre-${env:VERIF_PH}-post"]>>, del |-> <<>>]
          [] c.kind \in {"absent", "dropcomp"} -> [set |-> <<>>, del |-> <<c.p>>]
          [] OTHER                -> [set |-> <<>>, del |-> <<>>]
@@ -326,7 +329,7 @@ DocDefault(lf, via) == IF lf.p[Len(lf.p)] = "discard_overflow"
                        ELSE lf.d
 
 \* stage 1 - placeholders (VariableInjectHook runs first in the hook chain)
-Substitute(c) == IF c.kind = "ph" /\ ~c.set /\ UnsetIsError THEN "error" ELSE "ok"
+Substitute(c) == IF (c.kind = "ph" /\ ~c.set /\ UnsetIsError) \/ c.kind = "phnokey" THEN "error" ELSE "ok"
 \* stage 2 - typed decoding of every given value
 TypedDecode(c) == IF c.kind = "wrongtype" /\ StrictTypes THEN "error" ELSE "ok"
 \* stage 3 - keys nobody consumed
@@ -379,7 +382,8 @@ Typed == Done /\ cs.kind = "wrongtype" => err
 \* a value violating a documented constraint is an error; so is leaving out something required
 Constrained == Done /\ (cs.kind \in {"range", "dropcomp"} \/ (cs.kind = "absent" /\ TheV.leaves[cs.i].fl = "req")) => err
 \* a placeholder naming an unset variable / missing property is an error; a set one is not
-Placeholders == Done /\ cs.kind \in {"ph", "emb"} => (err <=> ~cs.set)
+Placeholders == /\ (Done /\ cs.kind \in {"ph", "emb"} => (err <=> ~cs.set))
+                /\ (Done /\ cs.kind = "phnokey" => err)      \* a malformed property placeholder is an error (not a crash)
 \* nothing else fails
 NoSpuriousError == Done /\ (cs.kind = "none" \/ (cs.kind = "absent" /\ TheV.leaves[cs.i].fl = "opt")) => ~err
 \* options that are not given keep the documented default (discard_overflow: on, through the CLI reader); given ones are kept
